@@ -48,7 +48,7 @@ func init() {
 			sh = append(sh, Shard{Kind: "seconds", Tier: tier, Seed: seed})
 			return sh
 		},
-		Run:    runC04,
+		Run: runC04,
 		Bounds: func(tier string) map[string]interface{} {
 			return map[string]interface{}{"day_steps": dayStepsFull, "hour_steps": hourSteps, "month_steps": monthSteps, "year_steps": yearSteps, "times": len(c04Times), "subsecond_offsets_s": tsub, "not_enumerated": "all 3e11 seconds and all real Julian Days: reduced to boundary alphabets on every day plus all 86400 seconds of structural days"}
 		},
